@@ -26,9 +26,11 @@ THREAD_CLASSES = C16.HIST_CLASSES + ["QField<Rational>", "Independent<Integer,Ra
 # rarely instantiated storage types / specialisations (built by make18 of harness/c18_threads.C, not among C16's history classes)
 EXTRA_RINGS = ["Modular<int8_t>", "Modular<uint8_t>", "Modular<int16_t>", "Modular<uint16_t>", "Modular<int32_t,int64_t>", "Modular<uint32_t,uint64_t>",
                "Modular<float,double>", "Modular<ruint<6>>", "ModularExtended<double>", "ModularExtended<float>"]
-THREAD_CLASSES = THREAD_CLASSES + EXTRA_RINGS
+# domains built over the reference-counted log-table ring (make18 of harness/c18_threads.C)
+REFCOUNTED = {"Modular<Log16>": 20000, "Poly1Dom<Modular<Log16>,Dense>": 5000, "Extension<Modular<Log16>>": 2000}       # class -> live copies per thread
+THREAD_CLASSES = THREAD_CLASSES + EXTRA_RINGS + [c for c in REFCOUNTED if c not in THREAD_CLASSES]
 MIXED = ("Mixed<values>", "MixedRotate<values>")
-EXTRA_V = ["RaceFreeDisjoint.v", "RaceFreeValues.v", "RaceFreeAtomic.v", "gen/RaceFreeGen.v", "RaceFreeProps.v"]      # the C18 engineer's part of coq/C16
+EXTRA_V = ["RaceFreeDisjoint.v", "RaceFreeValues.v", "RaceFreeAtomic.v", "gen/RaceFreeGen.v", "RaceFreeProps.v"]        # (gen imports RaceFreeAtomic)      # the C18 engineer's part of coq/C16
 TRANSIENT = re.compile(r"inconsistent assumptions|bad version number|End_of_file|Cannot find a physical path|not a valid|No such file|Cannot open|Compiled library")
 
 
@@ -65,6 +67,17 @@ def values_model(chk):
                        "%s writes %s" % (o["fn"], ",".join(w)),
                        "description generated from the source: a thread running this operation races with every thread that reads or writes %s "
                        "(C18_mode_switch_refuted exhibits the failing interleaving)" % ",".join(w))
+    # the premise of C18_atomic_counter, read from the source: every update of a shared std::atomic counter is ONE read-modify-write
+    for o in cv.atomic_offenders(res):
+        acc = o["atomic"]["accesses"]
+        ctr = ",".join(sorted(set(a[1] for a in acc if a[0] == "store")))
+        chk.fail_input(o["site"], "split-atomic-update:" + ctr, {"operation": o["uid"], "kind": o["kind"], "atomic_accesses_in_evaluation_order": acc},
+                       "a shared reference count is updated by one atomic read-modify-write (fetch_add / fetch_sub / ++ / -- / compare_exchange)",
+                       "%s updates %s with %s" % (o["fn"], ctr, " then ".join(a[0] for a in acc)),
+                       "every access is atomic (no data race in the C++ sense, ThreadSanitizer silent) but the update is not: two threads copy-constructing from one "
+                       "shared object lose an increment (C18_split_increment_refuted exhibits the interleaving), the count reaches 0 while the tables are in use")
+    chk.cov["atomic_counter_accesses"] = {o["uid"]: {"operations": [a[0] + ":" + a[1] for a in o["atomic"]["accesses"]], "fresh_object": o["atomic"]["fresh_object"]}
+                                          for o in cv.atomic_sites(res)}
     m = res["meta"]
     if len(m.get("families_in_dump", [])) < 9 or m.get("reachable_from_families", 0) < 300:
         chk.broke("value-class footprint generator: the operation families of harness/c18_values.h are not in the AST dump", json.dumps(m)[:1500])
@@ -306,6 +319,18 @@ def thread_requests(tier):
         reqs.append("Mixed<values> %d 4 %d\n" % (P, mi))
     reqs.append("MixedRotate<values> 0 9 %d\n" % (2 * mi))
     reqs.append("MixedRotate<values> 4 5 %d\n" % (2 * mi))
+    # copy storm: T threads make K LIVE copies each of one shared const object, then destroy them concurrently; exact sharer count of the
+    # reference-counted classes after each phase, the shared object must still work
+    for c in THREAD_CLASSES:
+        if c in NO_COPY_IN_THREADS or c.startswith("Independent<"):
+            continue
+        if c in REFCOUNTED:
+            k = REFCOUNTED[c] * (1 if tier == "quick" else 4)
+            reqs.append("CopyStorm:%s 2 8 %d\n" % (c, k))
+            reqs.append("CopyStorm:%s 1 16 %d\n" % (c, k // 2))
+            reqs.append("CopyStorm:%s 0 2 %d\n" % (c, k))
+        else:
+            reqs.append("CopyStorm:%s 1 6 %d\n" % (c, 100 if tier == "quick" else 1000))
     return reqs
 
 
@@ -314,6 +339,8 @@ def report_thread_line(chk, r, line, second=None):
     kind = "crash" if " X " in line else "diff"
     fam = re.search(r"what=(\S+)", line)
     klass = kind + (":" + fam.group(1) if (t[0] in MIXED and fam) else "")
+    if t[0].startswith("CopyStorm:") and fam:
+        klass = kind + ":" + fam.group(1).split(":")[0]          # count-live / count-end / digest-...
     chk.fail_input("threads:%s" % t[0], klass, {"class": t[0], "param": int(t[1]), "threads": int(t[2]), "iterations": int(t[3])},
                    "every thread's digests equal the sequential digest", line + ((" | second run: " + second) if second else ""),
                    "replay: echo '%s' | c18_threads   (reproduced in a second run)" % r.strip())
@@ -406,6 +433,8 @@ def run_threads(chk, tier, res, builder):
         reqs.append("%s 1 3 %d%s\n" % (c, 2 if tier == "quick" else 6, " nocopy" if c in NO_COPY_IN_THREADS else ""))
     reqs.append("Mixed<values> 0 9 %d\n" % (1 if tier == "quick" else 3))
     reqs.append("MixedRotate<values> 0 3 %d\n" % (9 if tier == "quick" else 18))
+    for c in REFCOUNTED:
+        reqs.append("CopyStorm:%s 2 4 %d\n" % (c, 300 if tier == "quick" else 2000))
     env = {"TSAN_OPTIONS": "halt_on_error=0 exitcode=0 report_signal_unsafe=0 history_size=4", "C18_ALARM": "1500"}
     out, err, probs = run_requests(tb, reqs, jobs=5, timeout=2400, env=env)
     for pb in probs:
@@ -491,7 +520,9 @@ def main(tier, replay=None):
                        "sequential digest; Mixed<values>: 9 operation families on thread-private Integer / Rational / ruint / rint / rmint values "
                        "(constructors from every native type incl. +-0 / denormal / huge doubles, arithmetic, comparisons, I/O to private streams, "
                        "conversions), thread t runs family (t+offset) mod 9: all 9 at once, 18 threads, every pair of neighbours, quadruples, rotation; "
-                       "every digest against the family's sequential digest, all families once more after the threads ended; plus a ThreadSanitizer "
+                       "every digest against the family's sequential digest, all families once more after the threads ended; CopyStorm:<class>: T threads make K live "
+                       "copies each of one shared const object and destroy them concurrently, exact sharer count of Modular<Log16> and the domains over it "
+                       "(K = 20000 / 5000 / 2000; 2, 8, 16 threads) after each phase, every other class 6 x 100 copies; plus a ThreadSanitizer "
                        "build (harness + instrumented library) of the same scenarios; a difference must reproduce in a second run; every run is "
                        "non-trivial (>= 2 threads); distinct = (class, parameter set, threads, iterations)")
     return chk.finish()
